@@ -19,7 +19,8 @@ EXPLANATION = (
     "follows on every path, and only then `self.focus = ...` is stored - nothing is stored into the focus before the list call, so a failing call leaves list and focus unchanged; "
     "(3) single fire: each override calls exactly one _call_modified-wrapped method (the super call) on every path, and inside the wrapper _modified() follows the wrapped call outside any "
     "try/finally (never for a failed call); (4) focus setter: the store is dominated by the int test raising TypeError and the range test raising IndexError, _focus_changed is called under "
-    "`index != self._focus` before the store, and the empty list forces _focus = 0; (5) slice-triple coherence: every range built from a slice's (start, stop, step) is bounded by its stop; (6) normalisation: arithmetic that assumes an ascending, well-ordered "
+    "`index != self._focus` before the store, and the empty list forces _focus = 0; (5) slice-triple coherence: every range built from a slice's (start, stop, step) is bounded by its stop; (6b) the normalisation block computes the new triple from the old one (no component read after being overwritten); (7) single indices are converted with slice(i, i + 1 or None), "
+    "the form that is correct for i == -1; (6) normalisation: arithmetic that assumes an ascending, well-ordered "
     "range (min(x, stop), stop - start, x < stop) is reachable only after negative steps and reversed bounds were normalised."
 )
 NOT_DECIDED = "The index arithmetic of _adjust_focus_on_contents_modified (which position the focus ends up at), equality with a built-in list for all operation sequences, error parity for every bad index."
@@ -412,8 +413,62 @@ def rule_slice_norm(ctx: Ctx) -> RuleResult:
     return rr
 
 
+def rule_index_slice_idiom(ctx: Ctx) -> RuleResult:
+    """A single index i is handed to the focus arithmetic as slice(i, i + 1 or None): for i == -1 the plain
+    slice(i, i + 1) is slice(-1, 0), i.e. empty, and the focus is not adjusted although an item is removed."""
+    p = ctx.p
+    rr = RuleResult("SIB", "C16.7", "single indices are converted with slice(i, i + 1 or None) in every MonitoredFocusList override", floor=4)
+    mfl = p.cls(f"{ML}.MonitoredFocusList")
+    for fi in p.all_class_functions(mfl):
+        for c in fi.own_nodes():
+            if isinstance(c, ast.Call) and isinstance(c.func, ast.Name) and c.func.id == "slice" and len(c.args) == 2 and isinstance(c.args[0], ast.Name):
+                i = c.args[0].id
+                b = c.args[1]
+                plus1 = lambda e: isinstance(e, ast.BinOp) and isinstance(e.op, ast.Add) and ast.unparse(e.left) == i and isinstance(e.right, ast.Constant) and e.right.value == 1  # noqa: E731
+                if not (plus1(b) or (isinstance(b, ast.BoolOp) and any(plus1(v) for v in b.values))):
+                    continue
+                ok = isinstance(b, ast.BoolOp) and isinstance(b.op, ast.Or) and len(b.values) == 2 and plus1(b.values[0]) and isinstance(b.values[1], ast.Constant) and b.values[1].value is None
+                rr.inst(f"{short(fi)}:{norm(c, 50)}", True, {"function": short(fi), "conversion": norm(c, 50)} if len(rr.samples) < 6 else None)
+                if not ok:
+                    rr.add(finding("SIB", fi, c, f"`{norm(c, 50)}` converts the index `{i}` without the `or None`: for {i} == -1 the slice is (-1, 0), which covers nothing, so deleting / replacing the last item by index -1 leaves the focus unadjusted (out of range after the deletion)", construct=f"index slice without `or None`: {norm(c, 50)}"))
+    return rr
+
+
+def rule_norm_simultaneous(ctx: Ctx) -> RuleResult:
+    p = ctx.p
+    rr = RuleResult("ORDER", "C16.6b", "the normalisation of a negative step computes all three components from the old triple (no component is read after it was overwritten)", floor=1)
+    fi = p.func(f"{ML}.MonitoredFocusList._adjust_focus_on_contents_modified")
+    trip = None
+    for n in fi.own_nodes():
+        if isinstance(n, ast.Assign) and isinstance(n.value, ast.Call) and isinstance(n.value.func, ast.Attribute) and n.value.func.attr == "indices":
+            for t in n.targets:
+                if isinstance(t, ast.Tuple) and len(t.elts) == 3 and all(isinstance(e, ast.Name) for e in t.elts):
+                    trip = [e.id for e in t.elts]
+    if trip is None:
+        raise AnalysisError("slice triple unpacking not found")
+    step = trip[2]
+    blocks = [n for n in ast.walk(fi.node) if isinstance(n, ast.If) and isinstance(n.test, ast.Compare) and ast.unparse(n.test.left) == step and isinstance(n.test.ops[0], ast.Lt)]
+    if not blocks:
+        # without a normalisation block there is nothing to order; C16.6 (NORM) reports the missing normalisation
+        rr.floor = 0
+        rr.notes.append("no `if step < 0:` block found - see C16.6")
+        return rr
+    for blk in blocks:
+        written = set()
+        rr.inst(f"block {norm(blk, 30)}", True, {"statements": [norm(st, 60) for st in blk.body]})
+        for st in blk.body:
+            reads = {x.id for x in ast.walk(st) if isinstance(x, ast.Name) and isinstance(x.ctx, ast.Load)}
+            if isinstance(st, ast.AugAssign) and isinstance(st.target, ast.Name):
+                reads.discard(st.target.id) if st.target.id not in written else None
+            stale = sorted(reads & written & set(trip))
+            if stale:
+                rr.add(finding("ORDER", fi, st, f"`{norm(st, 60)}` reads {stale} after the normalisation block already overwrote it: the new bounds are computed from a half-normalised triple (the range covers the wrong positions)", construct=f"normalisation reads overwritten {stale}"))
+            written |= {x.id for x in ast.walk(st) if isinstance(x, ast.Name) and isinstance(x.ctx, ast.Store)}
+    return rr
+
+
 def run(ctx: Ctx):
-    return [rule_cover(ctx), rule_order(ctx), rule_wrapper(ctx), rule_focus_setter(ctx), rule_slice_triple(ctx), rule_slice_norm(ctx)]
+    return [rule_cover(ctx), rule_order(ctx), rule_wrapper(ctx), rule_focus_setter(ctx), rule_slice_triple(ctx), rule_slice_norm(ctx), rule_norm_simultaneous(ctx), rule_index_slice_idiom(ctx)]
 
 
 _F = "urwid/widget/monitored_list.py"
@@ -432,6 +487,9 @@ MUTANTS = [
     Mut("slice-range-unbounded", _F, "MonitoredFocusList._adjust_focus_on_contents_modified", "len(list(range(start, min(focus, stop), step)))", "len(range(start, focus, step))", "BOUND|"),
     Mut("negative-step-not-normalised", _F, "MonitoredFocusList._adjust_focus_on_contents_modified", "        if step < 0:\n", "        if False:\n", "NORM|"),
     Mut("reversed-bounds-not-clamped", _F, "MonitoredFocusList._adjust_focus_on_contents_modified", "        stop = max(start, stop)\n", "", "NORM|"),
+    Mut("delitem-index-slice-without-none", _F, "MonitoredFocusList.__delitem__", "slice(y, y + 1 or None)", "slice(y, y + 1)", "SIB|widget.monitored_list.MonitoredFocusList.__delitem__"),
+    Mut("normalisation-sequential", _F, "MonitoredFocusList._adjust_focus_on_contents_modified", "            start, stop, step = start + (num_removed - 1) * step, start + 1, -step", "            start += (num_removed - 1) * step\n            stop, step = start + 1, -step", "ORDER|widget.monitored_list.MonitoredFocusList._adjust_focus_on_contents_modified"),
+    Mut("twin-normalisation-via-locals", _F, "MonitoredFocusList._adjust_focus_on_contents_modified", "            start, stop, step = start + (num_removed - 1) * step, start + 1, -step", "            lowest = start + (num_removed - 1) * step\n            start, stop, step = lowest, start + 1, -step", twin=True),
     Mut("twin-clamp-other-order", _F, "MonitoredFocusList._adjust_focus_on_contents_modified", "        stop = max(start, stop)\n", "        stop = max(stop, start)\n", twin=True),
     Mut("twin-setter-reordered-tests", _F, None, "if index < 0 or index >= len(self):", "if index >= len(self) or index < 0:", twin=True),
     Mut("twin-pop-local", _F, "MonitoredFocusList.pop", "        rval = super().pop(index)\n        self.focus = focus\n        return rval", "        popped = super().pop(index)\n        self.focus = focus\n        return popped", twin=True),
